@@ -251,21 +251,36 @@ def _changesets_discussion():
     ]
 
 
+def _snap(f):
+    """coordinates rounded down to multiples of 70 (x 1e-7 degrees), so that every PBF granularity of the menu
+    (1, 7, 100, 1000 nanodegrees) can carry the whole data set in one block"""
+    def g():
+        objs = f()
+        for o in objs:
+            if o["type"] == "n" and o.get("lon") is not None:
+                o["lon"] -= o["lon"] % 70
+                o["lat"] -= o["lat"] % 70
+            if o.get("reflocs"):
+                o["reflocs"] = [(x - x % 70, y - y % 70) for x, y in o["reflocs"]]
+        return objs
+    return g
+
+
 DATASETS = {
     "empty": lambda: [],
     "single": _single,
-    "single_full": _single_full,
-    "basic": _basic,
-    "nometa": _nometa,
-    "history": _history,
+    "single_full": _snap(_single_full),
+    "basic": _snap(_basic),
+    "nometa": _snap(_nometa),
+    "history": _snap(_history),
     "extremes": _extremes,
-    "strings": lambda: _strings(""),
-    "long": _long,
-    "mixed": _mixed_order,
-    "many": _many,
-    "cs_max": _cs_max,
+    "strings": _snap(lambda: _strings("")),
+    "long": _snap(_long),
+    "mixed": _snap(_mixed_order),
+    "many": _snap(_many),
+    "cs_max": _snap(_cs_max),
     "outofrange": _outofrange,
-    "waylocs": _waylocs,
+    "waylocs": _snap(_waylocs),
     "changesets": _changesets,
     "discussion": _changesets_discussion,
 }
